@@ -248,6 +248,10 @@ def gen_spec(r: apigen.Rng, idx=0):
         spec["service2"] = {"name": r.pick(["Archive", "LibraryAdmin", "Kind"]), "methods": m2}
     if r.maybe(0.4):
         mixin_scenario(r, spec, typeref)
+    if r.maybe(0.35) and not any(me["name"].lower() == "transport" for _, _, ms in services_of(spec) for me in ms):
+        # runtime configuration of the CALLER's process (see run_api).  (Not with an RPC named `Transport`: it replaces the client's
+        # `transport` property, which the DEBUG branch of the client's __init__ reads — naming collision, C12's subject.)
+        spec["debug_logging"] = True
     return spec
 
 
@@ -609,8 +613,11 @@ def plan_calls(ctx, r, spec, codec, svc_obj, per_method):
                 replies[-1] = enlarge(r, codec, out_full, replies[-1])
                 ctx.count("shape", "big-reply")
             tagno = len(plans)
+            # a server with STATE: a second call on the same path within one invocation would be answered differently
+            decoy = [] if (not spec.get("debug_logging") or out_full == "google.protobuf.Empty") else \
+                [{"replies": [codec.encode_b64(out_full, rpc.rand_msg(r, codec, out_full, p_set=0.9)) for _ in range(len(replies) + 1)]}]
             base = {"method": attr, "py_request": rpc.py_type(m.input), "consume": "auto", "probe_bool": True,
-                    "script": {pth: [{"replies": [codec.encode_b64(out_full, x) for x in replies]}] for pth in paths}}
+                    "script": {pth: [{"replies": [codec.encode_b64(out_full, x) for x in replies]}] + decoy for pth in paths}}
 
             def kwargs(n):
                 # a deadline, so that a mis-wired stub fails instead of hanging; caller metadata must pass through
@@ -922,9 +929,13 @@ def _run_api(ctx, r, spec, label, per_method, informational, multi_client, files
             else:
                 write_pb2(root, d.pb)
         plans = plan_calls(ctx, r, spec, codec, svc, per_method)
+        # runtime configuration: the emitted library's top-level logger at DEBUG (google.api_core.client_logging is importable in
+        # the venv, so CLIENT_LOGGING_SUPPORTED holds and the transports' logging interceptors take their logging branch)
+        dbg = {"debug_loggers": [loc["package"].split(".")[0]]} if spec.get("debug_logging") else {}
+        ctx.count("runtime", "debug-logging" if dbg else "default-logging")
         sessions = [{"op": "grpc_session", "client": loc["async_client" if asy else "client"],
                      "transport": loc["grpc_asyncio" if asy else "grpc"], "async": asy,
-                     "calls": [copy.deepcopy(p["call"]) for p in plans]} for asy in (False, True)]
+                     "calls": [copy.deepcopy(p["call"]) for p in plans], **dbg} for asy in (False, True)]
         import time
         for attempt in range(8):
             out = libhost.run(root, sessions, timeout=150)
@@ -941,7 +952,7 @@ def _run_api(ctx, r, spec, label, per_method, informational, multi_client, files
             mplan = plan_multi(r, spec, codec, svc, spec2, svc2, loc2)
             mops_ = [{"op": "grpc_multi_session", "client": loc["async_client" if asy else "client"],
                       "transport": loc["grpc_asyncio" if asy else "grpc"], "async": asy, "servers": ["A", "B"],
-                      "steps": [copy.deepcopy(st["step"]) for st in mplan[asy]]} for asy in (False, True)]
+                      "steps": [copy.deepcopy(st["step"]) for st in mplan[asy]], **dbg} for asy in (False, True)]
             for attempt in range(3):
                 mout = libhost.run(root, mops_, timeout=120)      # a FRESH interpreter: no transport of this service exists yet
                 bad = [str(o.get("child_error", "")) for o in mout if "child_error" in o]
@@ -1242,6 +1253,11 @@ def corpus_specs():
         [_m("GetBook"), _m("DeleteOperation", L + "DeleteOperationRequest", E), _m("GetOperation", L + "GetOperationRequest", "Book"),
          _m("GetLocation", C + "GetLocationRequest", C + "Location"), _m("ListLocations", "Req", "Book", False, True)],
         yaml=yml(["ops", "loc"], ["DeleteOperation", "GetOperation", "ListOperations", "GetLocation", "ListLocations"])), None))
+    # runtime configuration: the library's logger enabled for DEBUG (logging interceptors of both gRPC transports active)
+    out.append(("debug_logging_enabled", _base_spec(
+        [_m("GetBook"), _m("Purge", "Req", E), _m("Watch", "Req", "Book", False, True), _m("Upload", "Req", "Book", True, False),
+         _m("Chat", "Req", "Book", True, True), _m("Echo", "Book", "Book"), _m("GetPolicy", IA + "GetIamPolicyRequest", IA + "Policy")],
+        service2={"name": "Archive", "methods": [_m("Restore"), _m("GetBook", "Book", "Req")]}, debug_logging=True), None))
     # excluded points of `WF` that are NOT findings of this property (recorded as assumptions)
     out.append(("own_iam_rpc_with_add_iam_methods", _base_spec(
         [_m("GetBook"), _m("SetIamPolicy", IA + "SetIamPolicyRequest", IA + "Policy")], options="add-iam-methods"),
@@ -1316,7 +1332,8 @@ def run(ctx):
                 "file / both in a (possibly nested) sub-package of the API —, 4..8 RPCs covering all four arities, void, request/response "
                 "from the package, nested, well-known and a second (pb2) package, keyword and transport-unsafe names; in 4 of 10 APIs a service "
                 "yaml listing mix-in services (IAMPolicy / Operations / Locations, with http rules) for one, two or three services declared in "
-                "random order, one of which may declare RPCs NAMED like mix-in RPCs itself, add-iam-methods on/off) x random request "
+                "random order, one of which may declare RPCs NAMED like mix-in RPCs itself, add-iam-methods on/off; in 35% of the APIs the "
+                "caller's process has the library's logger at DEBUG and the server answers a second call differently) x random request "
                 "and reply valuations x request given as instance/dict/omitted/iterator x {sync, asyncio}; distinct by (method shape, "
                 "mode, flavour, valuations); non-trivial = every call")
     ctx.assume("LRO, paginated and extended-operation methods are outside this check (C07, C08); no flattened fields (C05), no mixins (C17), no selective generation (C16)")
@@ -1325,6 +1342,8 @@ def run(ctx):
                "(so that the common root of the packages is acme.lib.v1: Naming.build is C11's subject)")
     ctx.assume("only the API's OWN RPCs are called (what a mixed-in RPC does is C17's subject); the option add-iam-methods is not given for an "
                "API that declares IAM-named RPCs itself (probed: corpus own_iam_rpc_with_add_iam_methods)")
+    ctx.assume("DEBUG logging is not combined with an RPC named `Transport` (the client's `transport` property is replaced by the RPC method and "
+               "the logging branch of __init__ raises AttributeError: naming collision, C12's subject)")
     ctx.assume("a unary-response RPC is answered with exactly one message; replies of a void RPC are empty messages")
     ctx.assume("the dict form of a request is the mapping a caller writes by hand: proto field names -> native python values")
     run_corpus(ctx)
